@@ -692,9 +692,13 @@ class DiHypergraph:
                     raise XGIError("Directed edge must be a list or tuple!")
 
                 try:
-                    self._edge[idx] = {"in": set(tail), "out": set(head)}
+                    tail, head = list(tail), list(head)
+                    tail_set, head_set = set(tail), set(head)
                 except TypeError as e:
                     raise XGIError("Invalid ebunch format") from e
+                if None in tail_set or None in head_set:
+                    raise XGIError("None cannot be a node")
+                self._edge[idx] = {"in": tail_set, "out": head_set}
 
                 for n in tail:
                     if n not in self._node:
@@ -754,11 +758,14 @@ class DiHypergraph:
                 warn(f"uid {idx} already exists, cannot add edge {members}.")
             else:
                 try:
-                    tail = members[0]
-                    head = members[1]
-                    self._edge[idx] = {"in": set(tail), "out": set(head)}
+                    tail = list(members[0])
+                    head = list(members[1])
+                    tail_set, head_set = set(tail), set(head)
                 except TypeError as e:
                     raise XGIError("Invalid ebunch format") from e
+                if None in tail_set or None in head_set:
+                    raise XGIError("None cannot be a node")
+                self._edge[idx] = {"in": tail_set, "out": head_set}
 
                 for node in tail:
                     if node not in self._node:
